@@ -225,7 +225,8 @@ def lockstep(ctx, m):
         drop = [_Drop(c, occupied_entry(c.args[0], L, q)) for c in q.calls(("remove", "remove_entry")) if c.args and occupied_entry(c.args[0], L, q) is not None]
 
     def count_zero(a):
-        if a[0] != "cmp" or a[1] != "eq":
+        # (`count == 0`, or `count <= 0` on the unsigned count - the negation of an early `count > 0`)
+        if a[0] != "cmp" or a[1] not in ("eq", "le"):
             return False
         x, y = a[2], a[3]
         for u, v in ((x, y), (y, x)):
